@@ -22,6 +22,12 @@ FBARRAY_PROBE = ("FUNCTION_BLOCK Acc\nVAR_INPUT\n  x : DINT;\nEND_VAR\nVAR_OUTPU
                  "PROGRAM Main\nVAR\n  fa : ARRAY[0..2] OF Acc;\n  i : DINT;\nEND_VAR\nfa[DINT#1](x := DINT#2);\ni := fa[DINT#1].y;\nEND_PROGRAM\n")
 
 
+# a recursive FUNCTION 300 calls deep in one cycle (driven by a variable): accepted, and on the unchanged tree it completes; whatever the
+# code does with deep recursion, the cycle must not end in a static-class fault or a panic and must leave no call frame behind
+RECURSION_PROBE = ("FUNCTION Descend : DINT\nVAR_INPUT\n  n : DINT;\nEND_VAR\nIF n <= DINT#0 THEN\n  Descend := DINT#0;\nELSE\n  Descend := Descend(n - DINT#1) + DINT#1;\nEND_IF;\nEND_FUNCTION\n"
+                   "PROGRAM Main\nVAR\n  depth : DINT := DINT#300;\n  i : DINT;\nEND_VAR\ni := Descend(depth);\nEND_PROGRAM\n")
+
+
 def source_probe(name, src, fault):
     def run():
         binary = vlib.cargo_build("stsweep")
@@ -67,6 +73,7 @@ def check(tier):
                          probes=[("case-sensitive-variable-lookup", case_probe),
                                  ("property-access-undefined-field", source_probe("property", PROPERTY_PROBE, "UndefinedField")),
                                  ("array-of-fb-instances", source_probe("fbarray", FBARRAY_PROBE, "TypeMismatch")),
+                                 ("deep-recursion", source_probe("recursion", RECURSION_PROBE, "none - 300 nested calls complete on the unchanged tree")),
                                  ("feature-sweep", feature_sweep)])
 
 
